@@ -164,7 +164,7 @@ def generate(ctx, r, idx):
         h["input"] = DS_BUILD if r.random() < 0.6 else r.choice(corpus.designspaces())
         h["ops"] = [["site", r.randrange(1 << 30), r.choice(fams)] for _ in range(r.randint(2, 5))]
         if h["input"] == DS_BUILD:
-            h["ops"] += [["vf", r.choice(["name", "filename", "both"]), r.choice(fams)] for _ in range(2)]
+            h["ops"] += [["vf", r.choice(["name", "filename", "both", "twin", "twin"]), r.choice(fams)] for _ in range(3)]
         h["outdir"] = r.random() < 0.7
     elif wf in ("ufo", "ufowrite"):
         h["input"] = r.choice(_ufo_inputs())
@@ -506,7 +506,16 @@ def job_designspace(ctx, h, sb, op, value, entity):
             attrs += ' name="VF"'
         if op[1] in ("filename", "both"):
             attrs += ' filename="%s"' % (esc if not entity else "&xxe;")
-        vf = ("<variable-fonts><variable-font%s><axis-subsets><axis-subset name=\"weight\"/><axis-subset name=\"contrast\"/></axis-subsets></variable-font></variable-fonts>" % attrs).encode("utf-8")
+        subsets = "<axis-subsets><axis-subset name=\"weight\"/><axis-subset name=\"contrast\"/></axis-subsets>"
+        first = ""
+        if op[1] == "twin":
+            # two variable fonts whose file names share their last component: the first harmless, the
+            # second carrying the hostile path (a collision is where a builder is tempted to keep more of it)
+            base = value.replace("\\", "/").rstrip("/").split("/")[-1] or "X.ttf"
+            base = base.replace("&", "&amp;").replace("<", "&lt;").replace('"', "&quot;")
+            first = '<variable-font name="VF1" filename="%s">%s</variable-font>' % (base, subsets)
+            attrs = ' name="VF2" filename="%s"' % (esc if not entity else "&xxe;")
+        vf = ("<variable-fonts>%s<variable-font%s>%s</variable-font></variable-fonts>" % (first, attrs, subsets)).encode("utf-8")
         data = re.sub(rb'<designspace format="[^"]*"', b'<designspace format="5.0"', data, count=1).replace(b"</designspace>", vf + b"</designspace>")
         assert b"variable-fonts" in data and b'format="5.0"' in data
         if entity:
